@@ -254,7 +254,7 @@ def build_ml(name, mv, dv, a):
 
 
 # --------------------------------------------------------------------------- inlined models
-def old_model(kind: str, opset: int):
+def old_model(kind: str, opset: int, alias: bool = False):
     """Hand-written models against old default-domain opsets (onnx.helper only)."""
     import onnx
     from onnx import TensorProto as TP
@@ -273,8 +273,179 @@ def old_model(kind: str, opset: int):
         raise KeyError(kind)
     g = h.make_graph(nodes, "old", [h.make_tensor_value_info("a", TP.FLOAT, [2, 3])],
                      [h.make_tensor_value_info("b", TP.FLOAT, [2, 3])])
-    m = h.make_model(g, opset_imports=[h.make_operatorsetid("", opset)], ir_version=8)
+    imps = [h.make_operatorsetid("", opset)] + ([h.make_operatorsetid("ai.onnx", opset)] if alias else [])
+    m = h.make_model(g, opset_imports=imps, ir_version=8)
     onnx.checker.check_model(m, full_check=True)
+    return m
+
+
+# ---- legacy models that need REAL conversion and also use a non-default domain (ai.onnx.ml 1/2/3 or a
+# custom domain). (lowest, highest default-domain opset the body is valid at, nodes a -> q)
+CUSTOM_DOMAIN = "verif.custom"
+
+
+def _c64(h, TP, name, vals):
+    return h.make_node("Constant", [], [name], value=h.make_tensor(name + "_t", TP.INT64, [len(vals)], vals))
+
+
+OLDX_BODIES = {
+    "unsq_sq_relu": (9, 12, lambda h, TP: [h.make_node("Unsqueeze", ["a0"], ["u"], axes=[0]),
+                                           h.make_node("Squeeze", ["u"], ["q0"], axes=[0]),
+                                           h.make_node("Relu", ["q0"], ["q"])]),
+    "rsum_attr": (9, 12, lambda h, TP: [h.make_node("ReduceSum", ["a0"], ["r"], axes=[1], keepdims=1),
+                                        h.make_node("Sub", ["a0", "r"], ["q"])]),
+    # Softmax / LogSoftmax before 13 flatten to 2-D at `axis`: on rank 3 the MEANING changed at 13
+    "softmax3": (9, 12, lambda h, TP: [h.make_node("Unsqueeze", ["a0"], ["u"], axes=[0]),
+                                       h.make_node("Softmax", ["u"], ["s"], axis=1),
+                                       h.make_node("Squeeze", ["s"], ["q"], axes=[0])]),
+    "logsoftmax3": (9, 12, lambda h, TP: [h.make_node("Unsqueeze", ["a0"], ["u"], axes=[0]),
+                                          h.make_node("LogSoftmax", ["u"], ["s"], axis=1),
+                                          h.make_node("Squeeze", ["s"], ["q"], axes=[0])]),
+    "rmean_attr": (9, 17, lambda h, TP: [h.make_node("ReduceMean", ["a0"], ["r"], axes=[1], keepdims=1),
+                                         h.make_node("Sub", ["a0", "r"], ["q"])]),
+    "rmax_attr": (9, 17, lambda h, TP: [h.make_node("ReduceMax", ["a0"], ["r"], axes=[0], keepdims=1),
+                                        h.make_node("Sub", ["a0", "r"], ["q"])]),
+    "split_attr": (9, 12, lambda h, TP: [h.make_node("Split", ["a0"], ["s0", "s1"], axis=1, split=[1, 2]),
+                                         h.make_node("Concat", ["s1", "s0"], ["q"], axis=1)]),
+    "clip_attr": (9, 10, lambda h, TP: [h.make_node("Clip", ["a0"], ["q"], min=-1.0, max=2.0)]),
+    "pad_attr": (10, 10, lambda h, TP: [h.make_node("Pad", ["a0"], ["p"], pads=[0, 1, 0, 0]),
+                                        _c64(h, TP, "st", [0]), _c64(h, TP, "en", [3]), _c64(h, TP, "ax", [1]),
+                                        h.make_node("Slice", ["p", "st", "en", "ax"], ["q"])]),
+    "dropout_ratio": (9, 11, lambda h, TP: [h.make_node("Dropout", ["a0"], ["d"], ratio=0.3),
+                                            h.make_node("Neg", ["d"], ["q"])]),
+    "topk_attr": (9, 9, lambda h, TP: [h.make_node("TopK", ["a0"], ["v", "i"], k=3, axis=1),
+                                       h.make_node("Neg", ["v"], ["q"])]),
+    "relu_neg": (9, 17, lambda h, TP: [h.make_node("Relu", ["a0"], ["r"]), h.make_node("Neg", ["r"], ["q"])]),
+}
+# (lowest ai.onnx.ml version the node is valid at, node src -> dst); every one maps (2,3) float -> (2,3) float
+OLDX_ML = {
+    "scaler": (1, lambda h, TP, s, d: [h.make_node("Scaler", [s], [d], domain="ai.onnx.ml", offset=[0.5], scale=[2.0])]),
+    "binarizer": (1, lambda h, TP, s, d: [h.make_node("Binarizer", [s], [d], domain="ai.onnx.ml", threshold=0.25)]),
+    "norm": (1, lambda h, TP, s, d: [h.make_node("Normalizer", [s], [d], domain="ai.onnx.ml", norm="L1")]),
+    "afe": (1, lambda h, TP, s, d: [_c64(h, TP, d + "_ix", [2, 0, 1]),
+                                    h.make_node("ArrayFeatureExtractor", [s, d + "_ix"], [d], domain="ai.onnx.ml")]),
+    "le2": (2, lambda h, TP, s, d: [h.make_node("LabelEncoder", [s], [d], domain="ai.onnx.ml", keys_floats=[1.0, 2.0],
+                                                values_floats=[5.0, 6.0], default_float=-1.0)]),
+    # LabelEncoder-1 (classes_strings): its form is NOT accepted from ai.onnx.ml 2 on and nothing converts it
+    "le1": (1, lambda h, TP, s, d: [h.make_node("Cast", [s], [d + "_i"], to=TP.INT64),
+                                    h.make_node("LabelEncoder", [d + "_i"], [d + "_s"], domain="ai.onnx.ml",
+                                                classes_strings=["a", "b"], default_string="z"),
+                                    h.make_node("LabelEncoder", [d + "_s"], [d + "_j"], domain="ai.onnx.ml",
+                                                classes_strings=["a", "b"], default_int64=-1),
+                                    h.make_node("Cast", [d + "_j"], [d], to=TP.FLOAT)]),
+}
+
+
+def oldx_model(md, *, for_runtime: bool = False):
+    """A legacy model: [ml / custom node] body [ml / custom node]. `for_runtime`: custom-domain nodes (which no
+    runtime implements; their meaning here is the identity) are written as Identity, the import is dropped."""
+    import onnx
+    from onnx import TensorProto as TP
+    from onnx import helper as h
+
+    lo, hi, mk = OLDX_BODIES[md["body"]]
+    if not (lo <= md["opset"] <= hi):
+        raise ValueError(f"{md['body']} is not valid at opset {md['opset']}")
+    pre, post = [], []
+    imps = [h.make_operatorsetid("", md["opset"])]
+    if md.get("alias"):
+        imps.append(h.make_operatorsetid("ai.onnx", md["opset"]))
+    cur_in, cur_out = "a", "b"
+    # which side the extra nodes sit on
+    tails = []
+    if md.get("ml"):
+        kind, v = md["ml"]
+        if v < OLDX_ML[kind][0]:
+            raise ValueError(f"{kind} is not valid at ai.onnx.ml {v}")
+        tails.append(("ml", kind))
+        imps.append(h.make_operatorsetid("ai.onnx.ml", v))
+    if md.get("custom"):
+        tails.append(("custom", None))
+        if not for_runtime:
+            imps.append(h.make_operatorsetid(CUSTOM_DOMAIN, md["custom"]))
+    before = md.get("pos") == "before"
+    names = iter(["t1", "t2", "t3"])
+    if before:
+        src = "a"
+        for what, kind in tails:
+            dst = next(names)
+            pre += _oldx_tail(h, TP, what, kind, src, dst, for_runtime)
+            src = dst
+        pre.append(h.make_node("Identity", [src], ["a0"]))
+        post.append(h.make_node("Identity", ["q"], ["b"]))
+    else:
+        pre.append(h.make_node("Identity", ["a"], ["a0"]))
+        src = "q"
+        for what, kind in tails:
+            dst = next(names)
+            post += _oldx_tail(h, TP, what, kind, src, dst, for_runtime)
+            src = dst
+        post.append(h.make_node("Identity", [src], ["b"]))
+    g = h.make_graph(pre + mk(h, TP) + post, "oldx", [h.make_tensor_value_info("a", TP.FLOAT, [2, 3])],
+                     [h.make_tensor_value_info("b", TP.FLOAT, [2, 3])])
+    m = h.make_model(g, opset_imports=imps, ir_version=7)
+    onnx.checker.check_model(m, full_check=True)
+    return m
+
+
+def _oldx_tail(h, TP, what, kind, src, dst, for_runtime):
+    if what == "ml":
+        return OLDX_ML[kind][1](h, TP, src, dst)
+    if for_runtime:
+        return [h.make_node("Identity", [src], [dst])]
+    return [h.make_node("Ident", [src], [dst], domain=CUSTOM_DOMAIN)]
+
+
+_OLDX_SESS: dict = {}
+
+
+def oldx_reference(md, a):
+    """"Every operator at the version it was written in": the legacy model alone, run by onnxruntime."""
+    import json
+
+    import onnxruntime as ort
+
+    key = json.dumps(md, sort_keys=True)
+    if key not in _OLDX_SESS:
+        so = ort.SessionOptions()
+        so.log_severity_level = 4
+        so.intra_op_num_threads = 1
+        so.inter_op_num_threads = 1
+        _OLDX_SESS[key] = ort.InferenceSession(oldx_model(md, for_runtime=True).SerializeToString(), so,
+                                               providers=["CPUExecutionProvider"])
+    return _OLDX_SESS[key].run(None, {"a": np.ascontiguousarray(a, dtype=F32)})[0]
+
+
+def strip_custom(model):
+    """A copy of a built model in which the custom-domain nodes (meaning: identity) are Identity nodes and the
+    custom domain is not imported — what a runtime can execute. Model-free: ModelProto in, ModelProto out."""
+    import onnx
+
+    m = onnx.ModelProto()
+    m.CopyFrom(model)
+    found = [False]
+
+    def fix(nodes):
+        for n in nodes:
+            if n.domain == CUSTOM_DOMAIN and n.op_type == "Ident":
+                n.domain = ""
+                n.op_type = "Identity"
+                found[0] = True
+            for at in n.attribute:
+                if at.type == onnx.AttributeProto.GRAPH:
+                    fix(at.g.node)
+                for g_ in at.graphs:
+                    fix(g_.node)
+
+    fix(m.graph.node)
+    for f in m.functions:
+        fix(f.node)
+    if not found[0]:
+        return model
+    for holder in [m] + list(m.functions):
+        keep = [o for o in holder.opset_import if o.domain != CUSTOM_DOMAIN]
+        del holder.opset_import[:]
+        holder.opset_import.extend(keep)
     return m
 
 
@@ -389,7 +560,9 @@ class Realiser:
                         else_branch=lambda: [o.neg(r.x)])[0]
             return build({"a": r.x}, {"b": res})
         if md["kind"] == "old":
-            return old_model(md["body"], md["opset"])
+            return old_model(md["body"], md["opset"], bool(md.get("alias")))
+        if md["kind"] == "oldx":
+            return oldx_model(md)
         from spox import build
 
         r = Realiser()
@@ -442,6 +615,8 @@ def np_stmt(st, env, c):
             return ((a - F32(0.5)) * F32(2.0)).astype(F32)
         if md["kind"] == "old":
             return OLD_NP[md["body"]](a).astype(F32)
+        if md["kind"] == "oldx":
+            return np.asarray(oldx_reference(md, a), dtype=F32)
         e = {"x": a}
         np_block(md["prog"]["nodes"], e, c)
         return e[md["prog"]["out"]]
@@ -511,6 +686,13 @@ def model_imports(md) -> list[tuple[str, int]]:
         return sorted(policy(req).items())
     if md["kind"] == "old":
         return [("", md["opset"])]
+    if md["kind"] == "oldx":
+        out = [("", md["opset"])]
+        if md.get("ml"):
+            out.append(("ai.onnx.ml", md["ml"][1]))
+        if md.get("custom"):
+            out.append((CUSTOM_DOMAIN, md["custom"]))
+        return out
     req = requirements_of_nodes(md["prog"]["nodes"])
     req.append(("", 14))
     return sorted(policy(req).items())
@@ -603,9 +785,25 @@ def tainted_ids(prog) -> set:
     return blk(prog["nodes"], t)
 
 
+def oldx_ml_rejected(md, mlv) -> bool:
+    import onnx.defs
+
+    for n in oldx_model(md).graph.node:
+        if n.domain != "ai.onnx.ml":
+            continue
+        try:
+            sch = onnx.defs.get_schema(n.op_type, mlv, "ai.onnx.ml")
+        except Exception:  # noqa: BLE001
+            return True
+        if any(a.name not in sch.attributes for a in n.attribute):
+            return True
+    return False
+
+
 def features(prog) -> list[str]:
     """Structural features of a (shrunk) witness, from the abstract program and onnx.defs only."""
-    imp = expected_imports(prog).get("", 14)
+    all_imp = expected_imports(prog)
+    imp = all_imp.get("", 14)
     taint = tainted_ids(prog)
     feats = set()
     n_fresh = 0
@@ -632,6 +830,12 @@ def features(prog) -> list[str]:
                         feats.add("inline-in-body-below-import")
         if st["op"] == "reffn" and since("", "Constant", st["mv"]) != since("", "Constant", imp):
             feats.add("ref-attr-converted")
+        if st["op"] == "inline" and st["model"]["kind"] == "oldx" and st["model"].get("ml"):
+            # a non-default-domain node of the legacy model whose form the schema in force at the model's
+            # import of that domain does not accept (nothing converts it): onnx.defs only
+            mlv = all_imp.get("ai.onnx.ml", 1)
+            if oldx_ml_rejected(st["model"], mlv):
+                feats.add("inline-ml-node-form-rejected")
         if st["op"] == "inline":
             mi = policy(model_imports(st["model"])).get("")
             if mi is not None and mi < 14 and imp == 14:
@@ -782,8 +986,29 @@ class Gen:
         out = nodes[-1]["id"]
         return {"nodes": nodes, "out": out}, (out in tainted)
 
+    def oldx_desc(self, *, allow_le1=False):
+        """A legacy model that needs real conversion and uses ai.onnx.ml (1, 2, 3) and / or a custom domain."""
+        rng = self.rng
+        body = rng.choice([b for b in OLDX_BODIES if b != "relu_neg"] * 3 + ["relu_neg"])
+        lo, hi, _ = OLDX_BODIES[body]
+        md = {"kind": "oldx", "body": body, "opset": rng.randrange(lo, hi + 1)}
+        r = rng.random()
+        if r < 0.75:
+            kinds = ["scaler", "binarizer", "norm", "afe", "le2", "le2"] + (["le1"] if allow_le1 else [])
+            kind = rng.choice(kinds)
+            md["ml"] = [kind, rng.randrange(OLDX_ML[kind][0], 4) if kind != "le1" else 1]
+        if r >= 0.6:
+            md["custom"] = rng.randrange(1, 4)
+        if rng.random() < 0.3:
+            md["pos"] = "before"
+        if rng.random() < 0.15:
+            md["alias"] = True
+        return md
+
     def model_desc(self):
         rng = self.rng
+        if rng.random() < 0.30:
+            return self.oldx_desc(allow_le1=(not self.clean and rng.random() < 0.3))
         if rng.random() < 0.08:
             return {"kind": "ml_only", "mlv": rng.choice([1, 2, 3])}
         if rng.random() < 0.12:
@@ -826,6 +1051,95 @@ class Gen:
         if self.clean:
             align_unknown_rank(prog)
         return prog
+
+
+def inline_mix_program(rng, idx=0):
+    """Feedback class: a legacy inlined model that needs REAL conversion and uses ai.onnx.ml / a custom domain,
+    while the program elsewhere (top level, an If / Loop body, a function, another inlined model) requests
+    that domain at a different version."""
+    g = Gen(rng, clean=True, size=rng.randrange(1, 6), max_depth=rng.randrange(0, 2), allow_dyn=False,
+            allow_func=False, allow_inline=False, allow_ml=rng.random() < 0.3)
+    g.func_versions = None
+    blk, _ = g.block(["x", "y"], set(), 0, g.size)
+    nodes = list(blk["nodes"])
+    taint = tainted_ids({"nodes": nodes, "outs": []})
+    pool = ["x", "y"] + [st["id"] for st in nodes if st["id"] not in taint]
+    md = g.oldx_desc()
+    if not md.get("ml") and not md.get("custom"):
+        md["ml"] = ["scaler", rng.randrange(1, 4)]
+    a = {"id": g.fresh(), "op": "inline", "model": md, "args": [rng.choice(pool)]}
+    nodes.append(a)
+    tops = [a["id"]]
+    where = rng.choice(["top", "if", "loop", "func", "inline2", "inline2", "func_if"])
+    src = rng.choice(pool + [a["id"]])
+
+    def ml_stmt(arg):
+        op = rng.choice(["ml_label", "ml_label", "ml_scaler", "ml_binarizer"])
+        return {"id": g.fresh(), "op": op, "mv": rng.choice(ML_VERSIONS), "dv": g.mv(), "args": [arg]}
+
+    if where == "top":
+        e = ml_stmt(src)
+        nodes.append(e)
+        tops.append(e["id"])
+    elif where == "if":
+        t = ml_stmt(src)
+        f = {"id": g.fresh(), "op": rng.choice(PLAIN[4:]), "mv": g.mv(), "args": [src]}
+        if rng.random() < 0.5:
+            md2 = g.oldx_desc()
+            f = {"id": g.fresh(), "op": "inline", "model": md2, "args": [src]}
+        e = {"id": g.fresh(), "op": "if", "mv": g.mv(), "cond": rng.choice(["c", "nc"]),
+             "then": {"nodes": [t], "out": t["id"]}, "else": {"nodes": [f], "out": f["id"]}}
+        nodes.append(e)
+        tops.append(e["id"])
+    elif where == "loop":
+        pid = g.fresh()
+        t = ml_stmt(pid)
+        e = {"id": g.fresh(), "op": "loop", "mv": g.mv(), "param": pid, "args": [src if src not in taint else "x"],
+             "body": {"nodes": [t], "out": t["id"]}}
+        fx = {"id": g.fresh(), "op": "fix", "mv": g.mv(), "args": [e["id"]]}
+        nodes += [e, fx]
+        tops.append(fx["id"])
+    elif where in ("func", "func_if"):
+        pid = g.fresh()
+        t = ml_stmt(pid)
+        body = {"nodes": [t], "out": t["id"]}
+        if where == "func_if":
+            f = {"id": g.fresh(), "op": "neg", "mv": g.mv(), "args": [pid]}
+            i = {"id": g.fresh(), "op": "if", "mv": g.mv(), "cond": rng.choice(["t", "f"]),
+                 "then": {"nodes": [t], "out": t["id"]}, "else": {"nodes": [f], "out": f["id"]}}
+            body = {"nodes": [i], "out": i["id"]}
+        e = {"id": g.fresh(), "op": "func", "name": f"fmix{idx}_{next(_uid)}", "domain": rng.choice(["spox.verif", "verif.other"]),
+             "params": [pid], "body": body, "args": [src]}
+        nodes.append(e)
+        tops.append(e["id"])
+    else:  # another legacy model asking for the same non-default domains at other versions
+        md2 = g.oldx_desc()
+        if md.get("ml"):
+            kind = rng.choice(["scaler", "binarizer", "norm", "afe", "le2"])
+            md2["ml"] = [kind, rng.choice([v for v in (1, 2, 3) if v >= OLDX_ML[kind][0] and v != md["ml"][1]] or [3])]
+        if md.get("custom"):
+            md2["custom"] = rng.choice([v for v in (1, 2, 3) if v != md["custom"]])
+        e = {"id": g.fresh(), "op": "inline", "model": md2, "args": [src]}
+        nodes.append(e)
+        tops.append(e["id"])
+    # something from a newer default-domain module, so that the import is above the legacy model's opset
+    if rng.random() < 0.7:
+        hi = rng.choice([18, 19, 20, 21])
+        op_, mv_ = PIN[hi]
+        e = {"id": g.fresh(), "op": op_, "mv": mv_, "args": [tops[-1]]}
+        nodes.append(e)
+        tops[-1] = e["id"]
+    cur = tops[0]
+    for t in tops[1:]:
+        e = {"id": g.fresh(), "op": rng.choice(["add", "sub", "mul"]), "mv": g.mv(), "args": [cur, t]}
+        nodes.append(e)
+        cur = e["id"]
+    outs = [cur] + [st["id"] for st in nodes if st["op"] == "func"]
+    if nodes and nodes[0]["id"] not in taint and rng.random() < 0.3 and nodes[0]["id"] not in outs:
+        outs.append(nodes[0]["id"])
+    prog = sink(prune({"nodes": nodes, "outs": outs}))
+    align_unknown_rank(prog)
+    return prog
 
 
 PIN = {18: ("pad", 18), 19: ("identity", 19), 20: ("isnan_w", 20), 21: ("identity", 21)}
